@@ -221,6 +221,8 @@ package values
 //@ ensures maps: plainv(value) && kind(value) == reflect.Map ==> is(result, values.mapValue)
 //@ ensures strings: plainv(value) && kind(value) == reflect.String ==> is(result, values.stringValue)
 //@ ensures scalars: plainv(value) && kind(value) != reflect.Array && kind(value) != reflect.Slice && kind(value) != reflect.Map && kind(value) != reflect.String && kind(value) != reflect.Struct ==> is(result, values.wrapperValue)
+//@ ensures nilPointer: value != nil && !is(value, values.drop) && !is(value, values.Value) && !is(value, yaml.MapSlice) && kind(value) == reflect.Ptr && pl_ptr(value) == 0 ==> result.Interface() == nil
+//@ ensures pointer: value != nil && !is(value, values.drop) && !is(value, values.Value) && !is(value, yaml.MapSlice) && kind(value) == reflect.Ptr && pl_ptr(value) != 0 && kindof(telem(typeof(value))) != reflect.Struct && plainv(pl_deref(value)) ==> result.Interface() == pl_deref(value)
 //@ ensures wrapped: is(value, values.Value) && !is(value, values.drop) && !is(value, yaml.MapSlice) ==> result == value
 
 //@ globalinv values.trueValue: self.value == box(true)
